@@ -17,14 +17,14 @@ import (
 func init() { register("C35", "fault_enumeration", checkC35) }
 
 type c35Case struct {
-	Limit     int    `json:"limit"`
-	Pre       int    `json:"pre_established"`
-	Burst     int    `json:"burst"`
-	Vers      []byte `json:"versions"`
-	Takeover  bool   `json:"burst_contains_takeover_of_established_id"`
-	Mode      string `json:"mode"` // park-all-release-together | park-release-order | yields | sequential
-	Order     []int  `json:"release_order,omitempty"`
-	Point     string `json:"point"`
+	Limit    int    `json:"limit"`
+	Pre      int    `json:"pre_established"`
+	Burst    int    `json:"burst"`
+	Vers     []byte `json:"versions"`
+	Takeover bool   `json:"burst_contains_takeover_of_established_id"`
+	Mode     string `json:"mode"` // park-all-release-together | park-release-order | yields | sequential
+	Order    []int  `json:"release_order,omitempty"`
+	Point    string `json:"point"`
 }
 
 func permutations(n int) [][]int {
@@ -257,7 +257,81 @@ func checkC35(c *vk.Ctx) {
 			c.Sample(map[string]any{"case": cs, "max_simultaneous": maxSim, "admitted": admitted})
 		}
 	})
+	c35ReturningSessions(c)
 	c.MinEvents["schedules"] = 100
+	c.MinEvents["returning_session_cases"] = 20
 	c.MinEvents["refused"] = 100
 	c.MinEvents["schedules_reaching_the_limit"] = 50
+}
+
+// c35ReturningSessions: clients whose sessions are stored but which hold no connection do not occupy a place, and do
+// not get one for free either. k clients with persistent sessions connect and leave, the server is filled with
+// limit other clients, then the k come back (clean start 0 or 1); after every step the connections that hold a success
+// CONNACK and are still open are counted.
+func c35ReturningSessions(c *vk.Ctx) {
+	type conn struct {
+		d  *dconn
+		ok bool
+	}
+	for _, L := range []int{1, 2, 3} {
+		for _, ver := range []byte{4, 5} {
+			for k := 1; k <= 2; k++ {
+				for _, cleanBack := range []bool{false, true} {
+					for _, leave := range []string{"disconnect", "drop"} {
+						b := eng.NewBroker(eng.Options{Caps: func(cp *mqtt.Capabilities) { cp.MaximumClients = int64(L) }})
+						var all []*conn
+						open := func() int {
+							n := 0
+							for _, x := range all {
+								if x.ok && !x.d.closed() {
+									n++
+								}
+							}
+							return n
+						}
+						attrs := map[string]string{"mode": "returning-session", "takeover": "false", "point": "none"}
+						worst, trace := 0, []string{}
+						connect := func(id string, clean bool) *conn {
+							var props rc.Props
+							if ver == 5 {
+								props = rc.Props{{ID: rc.PSessionExpiry, Num: 300}}
+							}
+							d, rx := dConnect(b, ver, id, clean, props, nil)
+							ca := hasType(rx, rc.CONNACK)
+							x := &conn{d: d, ok: ca != nil && ca.Reason == 0}
+							all = append(all, x)
+							trace = append(trace, fmt.Sprintf("%s clean=%v -> admitted=%v, open=%d", id, clean, x.ok, open()))
+							if n := open(); n > worst {
+								worst = n
+							}
+							return x
+						}
+						// the k sessions come into being one at a time (the limit may be 1) and leave again
+						for i := 0; i < k; i++ {
+							x := connect(fmt.Sprintf("s%d", i), false)
+							if leave == "disconnect" {
+								x.d.send(&rc.Packet{Type: rc.DISCONNECT})
+							} else {
+								x.d.MC.CloseByClient()
+							}
+							b.Quiesce(10 * time.Second)
+						}
+						for i := 0; i < L; i++ {
+							connect(fmt.Sprintf("f%d", i), true)
+						}
+						for i := 0; i < k; i++ {
+							connect(fmt.Sprintf("s%d", i), cleanBack)
+						}
+						if worst > L {
+							c.Violate("C35/limit-exceeded", attrs, fmt.Sprintf("MaximumClients=%d (MQTT %d): %d connections held a success CONNACK at the same time after %d clients with stored sessions (left by %s) came back to the full server with clean start %v", L, ver, worst, k, leave, cleanBack),
+								map[string]any{"limit": L, "version": ver, "stored_sessions": k, "steps": trace})
+						}
+						c.Count("returning_session_cases", 1)
+						c.Eval(vk.Hash("c35ret", L, ver, k, cleanBack, leave), true)
+						b.Shutdown()
+					}
+				}
+			}
+		}
+	}
 }
